@@ -47,7 +47,7 @@ class Folder:
         self.head = "H " + " ".join(str(v) for v in self.internal.values()) + " | " + " | ".join(secs)
 
     def ask(self, queries):
-        """queries: [(kind, loc, offset)], kind 0 definition / 1 references / 2 rename; returns per query a list of (loc, s, e)"""
+        """queries: [(kind, loc, offset)], kind 0 definition / 1 references / 2 rename / 3 prepareRename; returns per query a list of (loc, s, e)"""
         line = self.head + " | X " + " ".join("%d %d %d" % (k, self.mi[l], o) for k, l, o in queries)
         out = core.run_stateless(core.RUNNER, "handlers", [line])[0]
         if out is None or out.startswith("ERROR") or out.startswith("CRASH"):
@@ -138,6 +138,19 @@ def run(ctx, srv, b, texts, inp, kinds, per_module=40):
                 ctx.violation("find-references: the server and the handlers model (Folder.f_references on the compiler's binding relation) disagree",
                               where, sorted(mset), sorted(got))
                 return False
+        elif k == 3:
+            r = srv.pos_request("textDocument/prepareRename", loc, line, col)
+            ctx.cov["evaluations"] += 1
+            if "result" not in r:
+                ctx.violation("the server does not answer a prepareRename request", where, "a result", str(r)[:300])
+                return False
+            got = r["result"]
+            gset = [] if not got else [(loc, got["start"]["line"], got["start"]["character"], got["end"]["line"], got["end"]["character"])]
+            mset = [f.key(x) for x in model]
+            if gset != mset:
+                ctx.violation("prepareRename: the server and the handlers model (Folder.f_prepare on the compiler's binding relation) disagree",
+                              where, mset, gset)
+                return False
         else:
             r = srv.pos_request("textDocument/rename", loc, line, col, {"newName": "zzq"})
             ctx.cov["evaluations"] += 1
@@ -155,6 +168,6 @@ def run(ctx, srv, b, texts, inp, kinds, per_module=40):
                 ctx.violation("rename: the edits of the server and of the handlers model (Folder.f_rename on the compiler's binding relation) disagree",
                               where, mset, got)
                 return False
-        ctx.count("handlers_tie_%s" % ("definition", "references", "rename")[k])
+        ctx.count("handlers_tie_%s" % ("definition", "references", "rename", "prepareRename")[k])
     ctx.cov["traces_validated_against_impl"] = ctx.cov.get("traces_validated_against_impl", 0) + len(queries)
     return True
